@@ -288,7 +288,14 @@ var jStrPieces = []string{
 	"a", "key", "Z", "0", " ", ",", ":", "{", "}", "[", "]", ",}", "],", "\\\"", "\\\\", "\\/", "\\b", "\\f", "\\n", "\\r", "\\t",
 	"\\u00e9", "\\uD83D\\uDE00", "\\u0000", "\\uFfFf", "\xc3\xa9", "\xe2\x82\xac", "\xf0\x9f\x98\x80", "\x7f", "'", "#", "<", "//", "/*", "true", "null", "-1",
 	"type", "Feature", "version", "log", "asset",
+	// words that other signature checks look for at small fixed offsets
+	"skip", "free", "moov", "mdat", "pnot", "wide", "ftyp", "ftypqt  ", "RIFF", "WAVE", "WEBP", "OggS", "fLaC", "MThd", "FORM", "AIFF", "GIF89a", "BM", "MZ", "ID3", "%PDF-", "PK", "8BPS", "II*", "icns", "PAR1", "Rar!", "BZh", "7z", "wOFF", "OTTO", "ttcf", "TZif", "LZIP", "MSCF", "DJVU", "AT&TFORM", "-----BEGIN PKCS7", "d8:announce", "4500",
 }
+
+// jPlanted: literals that a JSON text can legitimately carry at the offset where a higher-priority
+// signature expects them (pure ASCII, no control bytes). Only a document containing one of them
+// may be reported as something else than JSON.
+var jPlanted = []string{"<svg", "BOOKMOBI", "DICM", "GPAT", "GIMP", "Standard Jet DB", "Standard ACE DB"}
 
 var jNumbers = []string{"0", "-0", "1", "-1", "12", "1.5", "-0.25", "1e5", "1E5", "1e+5", "2E-3", "0.0e0", "123456789012345678901234567890", "-1.5e-10", "9", "10"}
 
